@@ -18,6 +18,18 @@ for i in range(1, 20):
         out.append("\n" + txt)
     else:
         out.append("\n### %s\n\n*(check not built yet - listed under not_applicable in MANIFEST.json)*\n" % pid)
+# ---- at a glance (from the evidence files of the last runs)
+try:
+    rows_g = []
+    for i in range(1, 20):
+        pid = "C%02d" % i
+        ev = json.load(open(os.path.join(V, "evidence", pid + ".json")))
+        cov = ev["coverage"]
+        legs = ", ".join("%s %d" % (c["driver"], c["evaluations"]) for c in cov.get("correspondence", []))
+        rows_g.append("| %s | %d/%d | %s | %s | %.0f s |\n" % (pid, cov.get("discharged", 0), cov.get("obligations", 0), legs, ev.get("tier"), ev.get("wall_s", 0)))
+    out.append("\n## 4b. At a glance (last run of each check on this machine)\n\n| Property | theorems checked | correspondence legs (cases) | tier | wall |\n|---|---|---|---|---|\n" + "".join(rows_g))
+except Exception as e:
+    pass
 # ---- defects
 out.append("\n---------------------------------------------------------------------------------------\n\n## 5. Defects found on the unchanged tree\n\n"
            "Each was first reproduced by the machinery against the real code (the witness is in `corpus/`), then either repaired by one\n"
